@@ -167,7 +167,7 @@ def main(argv=None):
     jobs = []
     for gi, H in enumerate(HARNESSES[prop]):
         for name, params in H.instances(args.tier):
-            if args.filter in name:
+            if any(f in name for f in args.filter.split("|")):
                 jobs.append((prop, gi, name, params, known, opts, None))
     if args.list:
         for j in jobs:
